@@ -5,7 +5,7 @@ cd /repo && git diff --quiet || { echo "repo dirty"; exit 2; }
 sed -i "$expr" "$file"
 git -C /repo diff --stat | tail -1
 for p in "$@"; do
-  out=$(/verif/check $p 2>/dev/null | grep -E "VIOLATION|KNOWN" | head -3)
+  out=$(/verif/check $p 2>&1 | grep -E "VIOLATION|KNOWN|Error|Traceback" | head -3)
   echo "$p exit=$? :: $out"
 done
-git -C /repo checkout -- .
+git -C /repo checkout -- .; python3 /verif/tools/translate.py >/dev/null
